@@ -75,7 +75,9 @@ func GetCPUPlans(resourceInfo *types.NodeResourceInfo, originCPUMap types.CPUMap
 
 	// get cpu plan for each numa node
 	for numaNodeID, cpuMap := range numaCPUMap {
-		numaCPUPlans := doGetCPUPlans(originCPUMap, cpuMap, availableResource.NUMAMemory[numaNodeID], shareBase, maxFragmentCores, req.CPURequest, req.MemRequest)
+		// a plan on a numa node consumes the memory of the numa node and of the whole node
+		numaMemory := utils.Min(availableResource.NUMAMemory[numaNodeID], availableResource.Memory)
+		numaCPUPlans := doGetCPUPlans(originCPUMap, cpuMap, numaMemory, shareBase, maxFragmentCores, req.CPURequest, req.MemRequest)
 		for _, workloadCPUMap := range numaCPUPlans {
 			cpuPlans = append(cpuPlans, &types.CPUPlan{
 				NUMANode: numaNodeID,
@@ -146,6 +148,9 @@ func doGetCPUPlans(originCPUMap, availableCPUMap types.CPUMap, availableMemory i
 	cpuPlans := h.getCPUPlans(cpuRequest)
 	if memoryRequest > 0 {
 		memoryCapacity := int(availableMemory / memoryRequest)
+		if memoryCapacity < 0 {
+			memoryCapacity = 0
+		}
 		if memoryCapacity < len(cpuPlans) {
 			cpuPlans = cpuPlans[:memoryCapacity]
 		}
